@@ -63,6 +63,23 @@ def root_attr(expr: ast.AST) -> str | None:
             return None
 
 
+def root_attr_via(f: Func, expr: ast.AST, depth: int = 4) -> str | None:
+    """root_attr, following local aliases: `x = self.a.setdefault(k, {}); y = x.setdefault(..); y.jobs` -> `a`."""
+    r = root_attr(expr)
+    if r is not None or depth == 0:
+        return r
+    e = expr
+    while isinstance(e, (ast.Subscript, ast.Call, ast.Attribute)):
+        e = e.value if not isinstance(e, ast.Call) else e.func
+    if isinstance(e, ast.Name) and e.id != "self":
+        from ..dataflow import defs_of
+
+        rs = {root_attr_via(f, d.value, depth - 1) for d in defs_of(f, e.id) if d.kind == "assign" and d.value is not None}
+        if len(rs) == 1:
+            return rs.pop()
+    return None
+
+
 def state_mutations(f: Func, fields=STATE_FIELDS):
     """(node, field, kind) for every statement/call in f that mutates one of the scheduler state fields."""
     for n in f.body_nodes():
